@@ -39,9 +39,13 @@ PAIRS = [
     ("G", "T", Fraction(1, 10000), Fraction(0)),
 ]
 BASE_PAIRS = {  # routes without an explicit target: unit -> (target name, factor)
-    "in_base": {"km": ("m", Fraction(1000)), "m": ("m", Fraction(1)), "mile": ("m", Fraction(1609344, 1000)), "ft": ("m", Fraction(3048, 10000)), "degC": None},
-    "in_mks": {"km": ("m", Fraction(1000)), "m": ("m", Fraction(1)), "mile": ("m", Fraction(1609344, 1000)), "ft": ("m", Fraction(3048, 10000)), "degC": None},
-    "in_cgs": {"km": ("cm", Fraction(100000)), "m": ("cm", Fraction(100)), "mile": ("cm", Fraction(1609344, 10)), "ft": ("cm", Fraction(3048, 100)), "degC": None},
+    "in_base": {"km": ("m", Fraction(1000)), "m": ("m", Fraction(1)), "mile": ("m", Fraction(1609344, 1000)), "ft": ("m", Fraction(3048, 10000)), "degC": None,
+                "T": ("T", Fraction(1)), "G": ("T", Fraction(1, 10000))},
+    "in_mks": {"km": ("m", Fraction(1000)), "m": ("m", Fraction(1)), "mile": ("m", Fraction(1609344, 1000)), "ft": ("m", Fraction(3048, 10000)), "degC": None,
+               "T": ("T", Fraction(1)), "G": ("T", Fraction(1, 10000))},
+    # the electromagnetic units go through a branch of their own in in_base / in_cgs / in_mks
+    "in_cgs": {"km": ("cm", Fraction(100000)), "m": ("cm", Fraction(100)), "mile": ("cm", Fraction(1609344, 10)), "ft": ("cm", Fraction(3048, 100)), "degC": None,
+               "T": ("G", Fraction(10000)), "G": ("G", Fraction(1))},
 }
 
 
@@ -355,6 +359,33 @@ def part_convert(ctx, shard):
                         trunc = float(g) == 0.0
                         ctx.violation(base + ("|mode=integer-truncated" if trunc else "|mode=wrong-value"), case, str(float(want)), repr(g))
                         break
+        # lorentz: velocity -> gamma needs v**2/c**2 - in floating point, whatever the width of the integer input
+        if d.kind in "iuf" and d.itemsize >= 4:
+            C_KMS = Fraction(299792458, 1000)
+            for vlist in ([150000, 60000, 250000], [46341, 100000, 299000]):
+                for rname in ("to_equivalent", "to(equivalence=)", "to_value", "convert_to_equivalent"):
+                    ctx.count("evaluations")
+                    q = unyt_array(np.array(vlist, dtype=dt), "km/s")
+                    if rname == "to_equivalent":
+                        st, r, _w = run_call(lambda: q.to_equivalent("dimensionless", "lorentz"))
+                    elif rname == "to(equivalence=)":
+                        st, r, _w = run_call(lambda: q.to("dimensionless", equivalence="lorentz"))
+                    elif rname == "to_value":
+                        st, r, _w = run_call(lambda: unyt_array(q.to_value("dimensionless", equivalence="lorentz"), "dimensionless"))
+                    else:
+                        st, r, _w = run_call(lambda: q.convert_to_equivalent("dimensionless", "lorentz"))
+                        r = q
+                    case = {"part": "convert", "dtype": dt, "route": rname, "from": "km/s", "to": "gamma", "form": "array", "values": [str(v) for v in vlist]}
+                    base = f"C17|equivalence-lorentz|route={rname}|dtype={kcls(dt)}"
+                    if st == "raise":
+                        ctx.count("equivalence_refused")
+                        continue
+                    ctx.decided(("lorentz", rname, dt, tuple(vlist)))
+                    got = np.asarray(r.d, dtype=float)
+                    want = np.array([float(1 / (1 - (Fraction(v) / C_KMS) ** 2)) ** 0.5 for v in vlist])
+                    tol = 64 * float(np.finfo(target_dtype(dt) if d.kind in "iu" else d).eps) * want**2
+                    if got.shape != want.shape or np.any(np.abs(got - want) > tol * want):
+                        ctx.violation(base + "|mode=wrong-value", case, want.tolist(), got.tolist())
         for form, vals in groups:
             if d.kind == "c":
                 continue
